@@ -1,8 +1,11 @@
+\* Exhaustive decision-table check of family S (quick dimensions). The driver (tools/props/validate.py)
+\* writes the same configuration plus "CONSTRAINT EmitCase" (Gen_Validate_S_quick.cfg) into its scratch
+\* directory, with SliceSet chosen from VERIF_SEED for family P.
 SPECIFICATION Spec
 CONSTANTS
   Family = "S"
   Size = "quick"
-  SliceK = 101
+  SliceK = 151
   SliceSet = {0}
 INVARIANT TypeOK
 INVARIANT AcceptedConserves
